@@ -26,7 +26,7 @@ ASSUMPTIONS = [
     "'!' is only generated on aliases of bool options (inverting a non-bool is not defined by the docs)",
     "documented encodings of n: '# CONFIG_X is not set' (sdkconfig), absent (header, auto.conf), \"\" (CMake), false (JSON)",
 ]
-BUDGET = {"quick": {"examples": 4000}, "thorough": {"examples": 300000, "deadline_s": 1500}}
+BUDGET = {"quick": {"examples": 4000}, "thorough": {"examples": 300000, "deadline_s": 900}}
 
 CFG = gen.cfg(max_syms=12, string_tier="U")
 
